@@ -22,7 +22,7 @@ from .. import AnalysisError
 from ..absint import (Interp, State, SeqV, IntV, BoolV, ObjV, OpaqueV, StubV, NoneV, NONE, TupleV, EnumV, Out, TRUE,
                       FALSE, ListV, DictV)
 from ..linarith import LinExpr, le, lt, ge, gt, eq, entails
-from ..common import Model, norm, try_const, kw
+from ..common import item_list_field, Model, norm, try_const, kw
 from ..index import Scope, walk_local
 from .. import rp66_ref as ref
 
@@ -319,7 +319,7 @@ def r04_1_other_components(chk):
     for n_items in (0, 1, 3):
         st = State()
         items = [st.new_obj(item_cls, tag=f"item{i}") for i in range(n_items)]
-        sobj = st.new_obj(eset, tag="set", fields={"_eflr_item_list": st.new_list(items), "set_name": NONE})
+        sobj = st.new_obj(eset, tag="set", fields={item_list_field(ix): st.new_list(items), "set_name": NONE})
         outs = [o for o in it2.call_function(mbb, [sobj], {}, st, mbb.node) if o.kind == "val"]
         for k, o in enumerate(outs):
             ps = o.value.pieces if isinstance(o.value, SeqV) else None
@@ -351,7 +351,7 @@ def r04_1_other_components(chk):
     i1 = st.new_obj(item_cls, tag="item1")
     it3.summaries[attrs_prop.qualname] = lambda interp, args, kwargs, s, node: interp.val(
         s, s.new_dict({"a": b1, "b": b2}) if args[0].tag == "item0" else s.new_dict({}))
-    sobj = st.new_obj(eset, tag="set", fields={"_eflr_item_list": st.new_list([i0, i1]), "set_name": NONE})
+    sobj = st.new_obj(eset, tag="set", fields={item_list_field(ix): st.new_list([i0, i1]), "set_name": NONE})
     outs = [o for o in it3.call_function(tpl, [sobj], {}, st, tpl.node) if o.kind == "val"]
     ok = bool(outs) and all([p[2] for p in o.value.pieces] == ["x1", "x2"] for o in outs) \
         and calls and all(isinstance(ft, BoolV) and ft.f == ("t",) for _, ft in calls)
